@@ -515,7 +515,7 @@ impl Property for C01 {
     fn cases(tier: Tier) -> u32 {
         match tier {
             Tier::Quick => 4200,
-            Tier::Thorough => 150_000,
+            Tier::Thorough => 40_000,
         }
     }
 
@@ -529,7 +529,7 @@ impl Property for C01 {
     fn strategy(tier: Tier) -> BoxedStrategy<Case> {
         let maxg = match tier {
             Tier::Quick => 260u16,
-            Tier::Thorough => 1500u16,
+            Tier::Thorough => 600u16,
         };
         let mutation = (prop_oneof![1 => Just(0u8), 24 => 1u8..26, 3 => Just(26u8)], any::<u16>(), any::<u8>(), any::<u64>(), prop::bool::weighted(0.4)).prop_map(|(kind, pos, sub, val, remine)| Mutation { kind, pos, sub, val, remine });
         (any::<u64>(), 1u8..25, 1u8..30, prop_oneof![2 => Just(0u16), 3 => 1u16..200], 1u16..maxg, 0u8..6, prop::bool::weighted(0.2), prop_oneof![7 => Just(0u8), 1 => Just(1u8), 1 => Just(2u8), 3 => Just(3u8), 1 => Just(4u8), 3 => Just(5u8)], mutation)
